@@ -3,7 +3,9 @@
 set -e
 cd "$(dirname "$0")/.."
 export CARGO_NET_OFFLINE=true
-(cd lean && lake build)
+# the generated part of the model (C18's type table) is regenerated from /repo's current source first
+python3 tools/c18_runner.py --translate-only || echo "translation failed (the C18 check will report it)"
+(cd lean && lake build) || echo "lake build incomplete (the checks report which module)"
 cp -n /repo/Cargo.lock harness/Cargo.lock 2>/dev/null || true
 cd harness
 cargo build --release --offline --target-dir target/std --features cfg-std
